@@ -86,7 +86,10 @@ pub mod verif {
     }
     /// Number of stale dereferences since the last reset, plus the first few events.
     pub fn stale() -> (u64, Vec<(&'static str, usize, u32, u32)>) {
-        (STALE_COUNT.with(|c| c.get()), STALE_LOG.with(|l| l.borrow().clone()))
+        (
+            STALE_COUNT.with(|c| c.get()),
+            STALE_LOG.with(|l| l.borrow().clone()),
+        )
     }
     /// Reset all counters and disarm collection points.
     pub fn reset() {
@@ -590,7 +593,9 @@ impl<T: Default + Reset + Traceable> Space<T> {
             gc_box.ref_count.set(1); // Start with ref_count = 1 for the returned Gc
             gc_box.pooled.set(false);
             // New tenant: handles to the previous tenant become stale
-            gc_box.generation.set(gc_box.generation.get().wrapping_add(1));
+            gc_box
+                .generation
+                .set(gc_box.generation.get().wrapping_add(1));
             ptr
         } else {
             // Need to allocate new - check if current chunk has space
@@ -898,14 +903,29 @@ impl<T: Default + Reset + Traceable> Heap<T> {
         let mut slots = Vec::new();
         for chunk in &sp.chunks {
             for b in chunk {
-                slots.push((b.index, b.pooled.get(), b.ref_count.get(), b.generation.get()));
+                slots.push((
+                    b.index,
+                    b.pooled.get(),
+                    b.ref_count.get(),
+                    b.generation.get(),
+                ));
             }
         }
-        let free: Vec<usize> = sp.free_list.iter().map(|p| unsafe { p.as_ref() }.index).collect();
+        let free: Vec<usize> = sp
+            .free_list
+            .iter()
+            .map(|p| unsafe { p.as_ref() }.index)
+            .collect();
         let mut guards = Vec::new();
         for w in &sp.active_guards {
             if let Some(g) = w.upgrade() {
-                guards.push(g.roots.borrow().iter().map(|p| unsafe { p.as_ref() }.index).collect());
+                guards.push(
+                    g.roots
+                        .borrow()
+                        .iter()
+                        .map(|p| unsafe { p.as_ref() }.index)
+                        .collect(),
+                );
             }
         }
         (slots, free, guards, sp.net_allocs, sp.gc_threshold)
